@@ -427,9 +427,11 @@ Section Live.
   Lemma mdeq_mono : forall k i j, i <= j ->
     (exists j', i <= j' <= j /\ ~ In k (queue (S_ j'))) \/ mdeq k (S_ j) <= mdeq k (S_ i).
   Proof.
-    intros k. apply (measure_mono st (step c) (LInv c) (fun s => ~ In k (queue s)) (mdeq k) x Hx LI).
+    intros k. apply (measure_mono_lab st (step c) (LInv c) (fun s => ~ In k (queue s)) (mdeq k)
+                       (fun t e => t = W -> is_call e = false) x Hx LI).
     - intros s. destruct (in_dec Nat.eq_dec k (queue s)); [right; tauto|left; assumption].
-    - intros s t e s' L Hng Hs. apply (mdeq_any c s t e s' k (l_inv _ _ L) Hs).
+    - intros i t e Hl ->. eapply Hns; eauto.
+    - intros s t e s' L Hng Hok Hs. apply (mdeq_any c s t e s' k (l_inv _ _ L) Hs Hok).
       destruct (in_dec Nat.eq_dec k (queue s)); [assumption|contradiction].
   Qed.
 
@@ -454,7 +456,7 @@ Section Live.
     destruct (in_dec Nat.eq_dec k (queue (S_ j2))) as [Hk2|Hn2]; [|exists j2; split; [lia|left; exact Hn2]].
     assert (Hs := Hx j2). rewrite He in Hs.
     exists (S j2). split; [lia|].
-    destruct (mdeq_worker c _ e _ k (l_inv _ _ (LI j2)) Hs Hk2) as [G|Lt]; [left; exact G|right; lia].
+    destruct (mdeq_worker c _ e _ k (l_inv _ _ (LI j2)) Hs (Hns j2 e He) Hk2) as [G|Lt]; [left; exact G|right; lia].
   Qed.
   Lemma held_done : forall k i, In k (held (S_ i)) -> exists j, i <= j /\ In k (done (S_ j)).
   Proof.
@@ -471,7 +473,7 @@ Section Live.
       assert (Hhj : In k (held (S_ j))) by (unfold held in *; rewrite Q1, Q2; exact Hh).
       assert (Hs := Hx j). rewrite He in Hs.
       exists (S j). split; [lia|].
-      destruct (held_step c _ e _ k Hs Hhj) as [D|[_ Lt]]; [left; left; exact D|right; rewrite Q1 in Lt; exact Lt]. }
+      destruct (held_step c _ e _ k Hs (Hns j e He) Hhj) as [D|[_ Lt]]; [left; left; exact D|right; rewrite Q1 in Lt; exact Lt]. }
     destruct (X i) as (j & Hij & [D|Nh]); [exists j; split; assumption|].
     assert (St : In k (held (S_ j)) \/ In k (done (S_ j))).
     { apply (stable_from st (step c) (LInv c) (fun s => In k (held s) \/ In k (done s)) x Hx LI) with (i := i); auto.
@@ -528,7 +530,7 @@ Section Live.
         unfold mexit in *. rewrite (exit_other c s u e0 s' L Hre Q2 Hu Hs).
         destruct (frame_w c s u e0 s' Hs Hu) as [A _]. rewrite A. exact Q1. }
       destruct Q as [Q1 Q2]. assert (Hs := Hx j). rewrite He in Hs.
-      exists (S j). split; [lia|]. right. rewrite <- Q1. apply (exit_worker c _ e _ (LI j) Q2 Hs). }
+      exists (S j). split; [lia|]. right. rewrite <- Q1. apply (exit_worker c _ e _ (LI j) Q2 Hs (Hns j e He)). }
     destruct (X i) as (j & Hij & [D|Sf]); [exists j; split; assumption|].
     assert (St : shut (S_ j) = true).
     { refine (stable_from st (step c) (LInv c) (fun s => shut s = true) x Hx LI _ i j Hij Hi).
@@ -641,13 +643,13 @@ Proof.
 Qed.
 
 (* a finite run that ends in a state in which no thread is obliged, followed by stuttering, is a fair execution *)
-Lemma quiescent_end_fair : forall c tr s1, run st (step c) init tr = Some s1 ->
+Lemma quiescent_end_fair : forall c tr s1, selfunlock c = true -> run st (step c) init tr = Some s1 ->
   (forall t, ~ obliged st (step c) must s1 t) -> sfair c (finite_exec st (step c) init tr).
 Proof.
-  intros c tr s1 Hr Hq. set (x := finite_exec st (step c) init tr).
+  intros c tr s1 Hsu Hr Hq. set (x := finite_exec st (step c) init tr).
   assert (Hx : is_sexec c x) by (eapply finite_exec_is_exec; eauto).
   assert (HL : forall k, LInv c (st_at st x k)).
-  { intros k. apply LInv_R. apply (exec_reachable st (step c) init x Hx). unfold x. rewrite finite_exec_start. apply reachable_init. }
+  { intros k. apply LInv_R; [exact Hsu|]. apply (exec_reachable st (step c) init x Hx). unfold x. rewrite finite_exec_start. apply reachable_init. }
   intros t i Ho.
   destruct (stepped_between_dec st x t i (i + length tr)) as [(k & Hk & Hs)|Hn]; [exists k; split; [lia|exact Hs]|].
   exfalso.
@@ -670,22 +672,39 @@ Lemma dead_not_obliged : forall c s, wpc s = WDead -> ~ obliged st (step c) must
 Proof. intros c s Hw Ho. apply obliged_active in Ho. unfold active in Ho. simpl in Ho. rewrite Hw in Ho. exact Ho. Qed.
 
 (* example: one task is submitted and run, the worker parks; then nothing happens any more *)
-Definition live_cfg : cfg := mkcfg 1 true true true.
+Definition live_cfg : cfg := mkcfg 1 true true true true.
 Definition live_trace : list (tid * ev) :=
   [(10, ECall 0 0 false); (10, ELock); (10, EEnq 0); (10, EBcast 0); (10, EUnlock); (10, ERet 0 true);
    (0, ELock); (0, EDeq 0); (0, EUnlock); (0, ERun 0); (0, EDone 0); (0, ELock); (0, EWait 0)].
 
+Lemma run_frame : forall c tr s s' t, run st (step c) s tr = Some s' -> (forall u e, In (u, e) tr -> u <> t) -> cl s' t = cl s t.
+Proof.
+  intros c tr. induction tr as [|[u e] tr IH]; intros s s' t Hr Hn; simpl in Hr.
+  - inversion Hr; reflexivity.
+  - destruct (step c s u e) as [s1|] eqn:Es; [|discriminate].
+    rewrite (IH s1 s' t Hr); [|intros u0 e0 Hin; apply (Hn u0 e0); right; exact Hin].
+    apply (frame_c c s u e s1 t Es). apply (Hn u e). left. reflexivity.
+Qed.
+
 Lemma fair_exec_example : exists x, is_sexec live_cfg x /\ sfair live_cfg x /\ R live_cfg (st_at st x 0) /\
-  recheck live_cfg = true /\ In 0 (acc (st_at st x 6)) /\ In 0 (done (st_at st x 11)).
+  recheck live_cfg = true /\ selfunlock live_cfg = true /\ (forall i e, lab st x i = Some (W, e) -> is_call e = false) /\
+  In 0 (acc (st_at st x 6)) /\ In 0 (done (st_at st x 11)).
 Proof.
   destruct (run st (step live_cfg) init live_trace) as [s1|] eqn:Er; [|vm_compute in Er; discriminate].
   exists (finite_exec st (step live_cfg) init live_trace).
-  split; [eapply finite_exec_is_exec; eauto|]. split.
-  - apply (quiescent_end_fair live_cfg live_trace s1 Er). vm_compute in Er. inversion Er; subst. clear Er. intros t.
-    destruct (Nat.eq_dec t W) as [->|Nw].
-    + apply parked_not_obliged; [reflexivity|left; reflexivity].
-    + apply idle_not_obliged; [exact Nw|]. simpl. unfold upd. repeat (destruct (t =? 10); simpl; try reflexivity).
-  - split; [rewrite finite_exec_start; apply reachable_init|]. split; [reflexivity|]. vm_compute. split; left; reflexivity.
+  split; [eapply finite_exec_is_exec; exact Er|]. split.
+  - apply (quiescent_end_fair live_cfg live_trace s1 eq_refl Er). intros t.
+    assert (F : wpc s1 = WWait /\ In W (waitc s1) /\ cp (cl s1 10) = Idle).
+    { vm_compute in Er. inversion Er; subst. simpl. repeat split. left. reflexivity. }
+    destruct F as (F1 & F2 & F3).
+    destruct (Nat.eq_dec t W) as [->|Nw]; [apply parked_not_obliged; assumption|].
+    apply idle_not_obliged; [exact Nw|]. destruct (Nat.eq_dec t 10) as [->|N10]; [exact F3|].
+    rewrite (run_frame live_cfg live_trace init s1 t Er); [reflexivity|].
+    intros u e Hin. simpl in Hin. repeat (destruct Hin as [Hin|Hin]; [inversion Hin; subst; auto|]). contradiction.
+  - split; [rewrite finite_exec_start; apply reachable_init|]. split; [reflexivity|]. split; [reflexivity|]. split.
+    + intros i e Hl. simpl in Hl. do 14 (destruct i as [|i]; [simpl in Hl; inversion Hl; subst; reflexivity|]).
+      simpl in Hl. destruct i; discriminate Hl.
+    + vm_compute. split; left; reflexivity.
 Qed.
 
 (* without the fairness hypothesis: the same task, accepted, then nothing happens - an execution of the model in which the
@@ -704,4 +723,55 @@ Proof.
   assert (E : st_at st (finite_exec st (step live_cfg) init stuck_trace) j = s1)
     by (apply (state_after_end st (step live_cfg) stuck_trace init s1 j Er); simpl; lia).
   rewrite E. vm_compute in Er. inversion Er; subst. simpl. repeat split; auto.
+Qed.
+
+(* ---- the code as found (selfunlock = false): a task body that calls iwstw_shutdown on its own executor gets
+        IW_ERROR_ASSERTION back with the mutex still locked; when the task has returned the worker blocks on its own mutex,
+        and no continuation whatsoever releases it: every later call (here iwstw_schedule of task 1 by thread 10) hangs ---- *)
+Definition selfsd_cfg : cfg := mkcfg 0 false false true false.
+Definition selfsd_trace : list (tid * ev) :=
+  [(10, ECall 0 0 false); (10, ELock); (10, EEnq 0); (10, EBcast 0); (10, EUnlock); (10, ERet 0 true);
+   (0, ELock); (0, EDeq 0); (0, EUnlock); (0, ERun 0);
+   (0, ECall 3 0 false); (0, ELock); (0, ERet RC_ASSERTION false); (0, EDone 0);
+   (10, ECall 0 1 false)].
+
+Definition self_deadlocked (s : st) : Prop :=
+  owner s = Some W /\ wpc s = WU1 /\ cp (cl s 10) = Start /\ fn (cl s 10) = 0 /\ done s = [0] /\ queue s = [].
+
+Lemma self_deadlocked_step : forall c s t e s', self_deadlocked s -> step c s t e = Some s' -> self_deadlocked s'.
+Proof.
+  intros c s t e s' (A & B & C & D & E & F) H. unfold self_deadlocked.
+  destruct (Nat.eq_dec t 10) as [Et|N].
+  - scases H t; simpl in *; try discriminate Et; subst; congruence.
+  - rewrite (frame_c c s t e s' 10 H N).
+    scases H t; simpl in *; try congruence; repeat split; auto; congruence.
+Qed.
+
+Theorem self_shutdown_deadlock : exists s,
+  run st (step selfsd_cfg) init selfsd_trace = Some s /\ recheck selfsd_cfg = true /\ In 0 (acc s) /\ self_deadlocked s /\
+  forall tr s', run st (step selfsd_cfg) s tr = Some s' -> self_deadlocked s'.
+Proof.
+  destruct (run st (step selfsd_cfg) init selfsd_trace) as [s|] eqn:Er; [|vm_compute in Er; discriminate].
+  exists s. split; [reflexivity|]. split; [reflexivity|].
+  assert (X : In 0 (acc s) /\ self_deadlocked s).
+  { vm_compute in Er. inversion Er; subst. unfold self_deadlocked. simpl. repeat split. left. reflexivity. }
+  destruct X as [X1 X2]. split; [exact X1|]. split; [exact X2|].
+  intros tr s' Hr. eapply (invariant_run st (step selfsd_cfg) self_deadlocked); [|exact X2|exact Hr].
+  intros s0 t e s1 P Hs. eapply self_deadlocked_step; eauto.
+Qed.
+
+(* with the fix the same call sequence is harmless: the task gets IW_ERROR_ASSERTION, the mutex is free again *)
+Definition selfsd_fixed_cfg : cfg := mkcfg 0 false false true true.
+Definition selfsd_fixed_trace : list (tid * ev) :=
+  [(10, ECall 0 0 false); (10, ELock); (10, EEnq 0); (10, EBcast 0); (10, EUnlock); (10, ERet 0 true);
+   (0, ELock); (0, EDeq 0); (0, EUnlock); (0, ERun 0);
+   (0, ECall 3 0 false); (0, ELock); (0, EUnlock); (0, ERet RC_ASSERTION false); (0, EDone 0);
+   (10, ECall 0 1 false); (10, ELock); (10, EEnq 1); (10, EBcast 0); (10, EUnlock); (10, ERet 0 true)].
+
+Lemma self_shutdown_fixed_example : exists s,
+  run st (step selfsd_fixed_cfg) init selfsd_fixed_trace = Some s /\ owner s = None /\ acc s = [0; 1] /\ done s = [0] /\
+  queue s = [1] /\ shut s = false.
+Proof.
+  destruct (run st (step selfsd_fixed_cfg) init selfsd_fixed_trace) as [s|] eqn:Er; [|vm_compute in Er; discriminate].
+  exists s. split; [reflexivity|]. vm_compute in Er. inversion Er; subst. simpl. repeat split.
 Qed.
